@@ -1,0 +1,7 @@
+// Copyright (c) 2020, Peter Ohler, All rights reserved.
+
+//go:build !verif
+
+package alt
+
+func verifHook(string, any) {}
